@@ -61,19 +61,23 @@ func (f *field) setopts(opts string) {
 type fielder struct {
 	fields []field
 	index  map[string]bool
+	err    error
 }
 
 // FieldsFor returns the fields of the given struct type.
 // https://github.com/amzn/ion-go/issues/117
-func fieldsFor(t reflect.Type) []field {
+func fieldsFor(t reflect.Type) ([]field, error) {
 	fldr := fielder{index: map[string]bool{}}
 	fldr.inspect(t, nil)
-	return fldr.fields
+	if fldr.err != nil {
+		return nil, fldr.err
+	}
+	return fldr.fields, nil
 }
 
 // Inspect recursively inspects a type to determine all of its fields.
 func (f *fielder) inspect(t reflect.Type, path []int) {
-	for i := 0; i < t.NumField(); i++ {
+	for i := 0; i < t.NumField() && f.err == nil; i++ {
 		sf := t.Field(i)
 		if !visible(&sf) {
 			// Skip non-visible fields.
@@ -106,7 +110,8 @@ func (f *fielder) inspect(t reflect.Type, path []int) {
 			}
 
 			if f.index[name] {
-				panic(fmt.Sprintf("too many fields named %v", name))
+				f.err = fmt.Errorf("ion: too many fields named %v in %v", name, t.String())
+				return
 			}
 			f.index[name] = true
 
